@@ -32,6 +32,7 @@ KIND_TAGS = {
     "charlist": ["charlist"],
     "varchars": VARCHARS,
     "newobj": ["new"],
+    "bracket": ["str"],      # a bracket class text ('[...]', '[^...]') or '.': any string for the verifier, class texts in the pools
     "absranges": ["absranges"], "abschars": ["abschars"],
     "boolc": ["True", "False"],
     "base": ["int_outside_2_16"] + [f"const:{b}" for b in range(2, 17)] + ["bool", "float", "str", "other", "none"],
